@@ -679,6 +679,11 @@ impl HistGen {
 
     pub fn prelude(&mut self) {
         self.emit("reset".into());
+        // sometimes the instance serves another master key as well (same shape of structure, opposite hints), operated
+        // right before every operation of this history: whatever the instance remembers between calls shows
+        if self.rng.chance(1, 4) {
+            self.emit("tenant on".into());
+        }
         let k = self.new_k();
         self.emit(format!("setup M0 K{k}"));
         // sometimes start from a large identifier counter: rights then use multi-byte LEB128 encodings
